@@ -242,6 +242,24 @@ def finish_leg(env, leg, pid, rc, out, outfile, rerun):
                                         "case": {"sanitizer_leg": leg, "note": "re-run the leg to reproduce"}}}
     if rc is None:
         return {"inconclusive": "watchdog fired"}
+    if rc in (-4, -6, -7, -11) and leg in ("native", "release-plain"):
+        # The harness is safe Rust and catches panics: a process killed by SIGILL/SIGABRT/SIGBUS/
+        # SIGSEGV died inside the code under test (unsafe code, or a panic inside a destructor
+        # while unwinding). Believed only if it happens again.
+        os.environ["HSV_PANIC_STDERR"] = "1"
+        try:
+            rc2, out2 = rerun()
+        finally:
+            os.environ.pop("HSV_PANIC_STDERR", None)
+        if rc2 == rc:
+            panics = [l for l in out2.splitlines() if l.startswith("panic: ")]
+            last = panics[-1][7:] if panics else ""
+            loc = re.sub(r"^\S*/src/", "src/", last.split(" ")[0]) if last else "?"
+            return {"evaluations": 0, "distinct_nontrivial": 0, "counters": {}, "dont_care": {}, "cross_notes": {}, "wall_s": 0,
+                    "violations": [{"signature": "process-crash|signal%d|%s" % (-rc, loc), "count": 1,
+                                    "message": "the harness process was killed by signal %d twice in a row while running this workload (last panic before it: %s); stderr tail: %s" % (-rc, last[:300], out2[-400:].replace("\n", " | ")),
+                                    "case": {"process_crash": True, "leg": leg, "note": "re-run the check to reproduce"}}]}
+        return {"inconclusive": "harness killed by signal %d once, not on the second run" % -rc}
     if rc != 0 or not os.path.exists(outfile):
         return {"inconclusive": "harness exited with status %s: %s" % (rc, out[-600:].replace("\n", " | "))}
     return json.load(open(outfile))
